@@ -3,6 +3,7 @@ package seq
 import (
 	"fmt"
 	"math"
+	"sort"
 	"testing"
 
 	age "github.com/craterdog/go-collection-framework/v4/agent"
@@ -42,7 +43,7 @@ func genAssocCase(kind string, keyTypes []string, maxOps, nkeys int) func(core.S
 	return func(s core.Source) assocCase {
 		c := assocCase{Kind: kind}
 		c.Key = core.Pick(s, keyTypes, "key")
-		c.Ctor = core.Pick(s, []string{"Make", "MakeFromArray", "MakeFromMap", "MakeFromSequence"}, "ctor")
+		c.Ctor = core.Pick(s, []string{"Make", "MakeFromArray", "MakeFromMap", "MakeFromSequence", "MakeFromSequence/catalog", "MakeFromSequence/map"}, "ctor")
 		if c.Ctor != "Make" {
 			n := s.Choose(7, "ninit")
 			c.Init = []kv{}
@@ -191,6 +192,18 @@ func execAssoc[K comparable](c assocCase, kt keyType[K]) (res core.Result) {
 	}
 	var coll assocLike[K]
 	var catalog col.CatalogLike[K, int]
+	var source assocLike[K] // the collection the constructor was given (sequence forms with a catalog or map as source)
+	seqSource := func() col.Sequential[col.AssociationLike[K, int]] {
+		switch c.Ctor {
+		case "MakeFromSequence/catalog":
+			source = col.Catalog[K, int](n).MakeFromArray(initAssocs())
+			return source
+		case "MakeFromSequence/map":
+			source = col.Map[K, int](n).MakeFromArray(initAssocs())
+			return source
+		}
+		return col.List[col.AssociationLike[K, int]](n).MakeFromArray(initAssocs())
+	}
 	ordered := c.Kind == "catalog"
 	p, payload := lib.Call(func() {
 		if c.Kind == "catalog" {
@@ -202,8 +215,8 @@ func execAssoc[K comparable](c assocCase, kt keyType[K]) (res core.Result) {
 				catalog = C.MakeFromArray(initAssocs())
 			case "MakeFromMap":
 				catalog = C.MakeFromMap(initMap())
-			case "MakeFromSequence":
-				catalog = C.MakeFromSequence(col.List[col.AssociationLike[K, int]](n).MakeFromArray(initAssocs()))
+			case "MakeFromSequence", "MakeFromSequence/catalog", "MakeFromSequence/map":
+				catalog = C.MakeFromSequence(seqSource())
 			}
 			coll = catalog
 		} else {
@@ -215,11 +228,15 @@ func execAssoc[K comparable](c assocCase, kt keyType[K]) (res core.Result) {
 				coll = M.MakeFromArray(initAssocs())
 			case "MakeFromMap":
 				coll = M.MakeFromMap(initMap())
-			case "MakeFromSequence":
-				coll = M.MakeFromSequence(col.List[col.AssociationLike[K, int]](n).MakeFromArray(initAssocs()))
+			case "MakeFromSequence", "MakeFromSequence/catalog", "MakeFromSequence/map":
+				coll = M.MakeFromSequence(seqSource())
 			}
 		}
 	})
+	sourceBefore := ""
+	if source != nil {
+		sourceBefore = showAssocsOf(source, kt)
+	}
 	if p {
 		res.Violation = core.Violate(prop+"/ctor-panicked", "constructor %s panicked: %s", c.Ctor, lib.Short(payload))
 		return res
@@ -319,7 +336,7 @@ func execAssoc[K comparable](c assocCase, kt keyType[K]) (res core.Result) {
 		}
 		return nil
 	}
-	if c.Ctor == "MakeFromMap" {
+	if c.Ctor == "MakeFromMap" || c.Ctor == "MakeFromSequence/map" {
 		if v := adoptOrder(-1, c.Ctor); v != nil {
 			res.Violation = v
 			return res
@@ -437,7 +454,9 @@ func execAssoc[K comparable](c assocCase, kt keyType[K]) (res core.Result) {
 					rank = func(a, b col.AssociationLike[K, int]) age.Rank { return rankOfInts(a.GetValue(), b.GetValue()) }
 					bad = func(a, b pair[K]) bool { return a.v > b.v }
 				} else {
-					rank = func(a, b col.AssociationLike[K, int]) age.Rank { return rankOfInts(index(b.GetKey()), index(a.GetKey())) }
+					rank = func(a, b col.AssociationLike[K, int]) age.Rank {
+						return rankOfInts(index(b.GetKey()), index(a.GetKey()))
+					}
 					bad = func(a, b pair[K]) bool { return index(a.k) < index(b.k) }
 				}
 				catalog.SortValuesWithRanker(rank)
@@ -476,9 +495,33 @@ func execAssoc[K comparable](c assocCase, kt keyType[K]) (res core.Result) {
 			lookedUpAfter = true // check() reads every universe key after every step
 		}
 	}
+	if source != nil {
+		// the collection the constructor read from is a collection of its own
+		if now := showAssocsOf(source, kt); now != sourceBefore {
+			res.Violation = core.Violate(prop+"/ctor/shares-source", "the history on a collection made by %s changed the source it was made from: %s -> %s", c.Ctor, sourceBefore, now)
+			return res
+		}
+		before := showAssocsOf(coll, kt)
+		source.SetValue(kt.keys[0], 77)
+		source.RemoveValue(kt.keys[1])
+		source.RemoveAll()
+		if now := showAssocsOf(coll, kt); now != before {
+			res.Violation = core.Violate(prop+"/ctor/shares-source", "changing the source of %s changed the collection made from it: %s -> %s", c.Ctor, before, now)
+			return res
+		}
+	}
 	res.NonTrivial = reordered && lookedUpAfter
 	res.Classes = append(res.Classes, "key-"+c.Key, "ctor-"+c.Ctor)
 	return res
+}
+
+func showAssocsOf[K comparable](a assocLike[K], kt keyType[K]) string {
+	parts := []string{}
+	for _, x := range a.AsArray() {
+		parts = append(parts, fmt.Sprintf("%s:%d", kt.show(x.GetKey()), x.GetValue()))
+	}
+	sort.Strings(parts)
+	return fmt.Sprint(parts)
 }
 
 func TestC03(t *testing.T) {
